@@ -6,7 +6,11 @@ use crate::exec::{execute, Fail};
 use crate::scenario::{Item, Op, Plan, Scenario, D};
 
 fn still_fails(sc: &Scenario, class: &str) -> Option<Fail> {
-    execute(sc).fail.filter(|f| f.class == class)
+    if simcore::minimise_expired() {
+        return None;
+    }
+    let sc = sc.clone();
+    simcore::with_timeout(move || execute(&sc))?.fail.filter(|f| f.class == class)
 }
 
 fn plans_mut(op: &mut Op) -> Vec<&mut Plan> {
